@@ -412,7 +412,25 @@ def check_representing(ctx):
     if len(loops) == 1:
         st = norm(loops[0].target.elts[0] if isinstance(loops[0].target, ast.Tuple) else loops[0].target)
         adds = [s for s in loops[0].body if isinstance(s, ast.AugAssign) and norm(s.target) == "bitstring_samples" and isinstance(s.value, ast.BinOp) and isinstance(s.value.op, ast.Mult)]
-        ok = len(adds) == 1 and norm(adds[0].value.right) in (f"int(round(distribution[{st}] * {N}))", f"int(round({N} * distribution[{st}]))", f"round(distribution[{st}] * {N})")
+        if len(adds) == 1:
+            import copy as _copy
+
+            loc = {}
+            for s2 in loops[0].body:
+                if isinstance(s2, ast.Assign) and len(s2.targets) == 1 and isinstance(s2.targets[0], ast.Name):
+                    loc.setdefault(s2.targets[0].id, []).append(s2.value)
+            pv = norm(loops[0].target.elts[1]) if isinstance(loops[0].target, ast.Tuple) and len(loops[0].target.elts) == 2 and norm(loops[0].iter) == "distribution.items()" else None
+
+            class _X(ast.NodeTransformer):  # single-definition locals of the loop body, and the value variable of an items() loop
+                def visit_Name(self, n):
+                    if pv is not None and n.id == pv:
+                        return ast.parse(f"distribution[{st}]", mode="eval").body
+                    if n.id in loc and len(loc[n.id]) == 1:
+                        return self.visit(_copy.deepcopy(loc[n.id][0]))
+                    return n
+
+            mult = norm(_X().visit(_copy.deepcopy(adds[0].value.right)))
+            ok = mult in (f"int(round(distribution[{st}] * {N}))", f"int(round({N} * distribution[{st}]))", f"round(distribution[{st}] * {N})")
     ctx.check(ok, R6, f.key + ":rounding", "each outcome gets int(round(p * N)) shots", "the initial allocation is not round(p * N) shots per outcome of the support", f)
     corr = [s for s in f.node.body if isinstance(s, ast.If) and norm(s.test) in (f"len(bitstring_samples) != {N}", f"{N} != len(bitstring_samples)")]
     if len(corr) != 1:
